@@ -11,7 +11,10 @@ OUT=${2:-/tmp/repocover}
 export GOFLAGS=-mod=mod GOPROXY=off GOSUMDB=off GOTOOLCHAIN=local
 rm -rf "$OUT"; mkdir -p "$OUT/bin" "$OUT/data" "$OUT/out"
 cd /verif
-go build -cover -coverpkg=github.com/ulikunitz/xz/... -o "$OUT/bin/verif" ./cmd/verif
+# the main package must be instrumented too, or no counters are written at exit
+go build -cover -coverpkg=github.com/ulikunitz/xz/...,verif/cmd/verif -o "$OUT/bin/verif" ./cmd/verif
+# counters are plain shared memory: 16 workers on the same hot loops crawl (cache-line ping-pong)
+export GOMAXPROCS=${COVPROCS:-4}
 export GOCOVERDIR="$OUT/data" VERIF_OUT="$OUT/out" VERIF_GOFLAGS_EXTRA="-cover -coverpkg=github.com/ulikunitz/xz/..."
 for id in C01 C02 C03 C04 C05 C06 C07 C08 C09 C10 C11 C12 C13 C14 C15 C16 C17 C18; do
     "$OUT/bin/verif" check $id --tier $TIER >"$OUT/$id.log" 2>&1 || echo "$id rc=$?"
@@ -20,5 +23,5 @@ go tool covdata textfmt -i="$OUT/data" -o "$OUT/cover.txt"
 ( cd /repo && go tool cover -func="$OUT/cover.txt" > "$OUT/func.txt" )
 tail -1 "$OUT/func.txt"
 # never-executed blocks, grouped by file
-awk 'NR>1 && $NF==0 {split($1,a,":"); print a[1]":"a[2]}' "$OUT/cover.txt" | sort -u > "$OUT/uncovered.txt"
+awk 'NR>1 {k=$1; if ($NF>0) hit[k]=1; else if (!(k in hit)) hit[k]=0} END {for (k in hit) if (!hit[k]) print k}' "$OUT/cover.txt" | grep -v '^verif/' | sort > "$OUT/uncovered.txt"
 wc -l "$OUT/uncovered.txt"
